@@ -57,14 +57,14 @@ theorem DInv_setT {s : State} (hD : DInv s) {t : Tid} {th : Thread} (hg : getT s
       exact hD.2 u thu hu hpcu
 
 theorem DInv_notifyOne {s : State} (hD : DInv s) (ch : Nat) : DInv (notifyOne s ch) := by
-  rcases notifyOne_cases s ch with ⟨_, heq⟩ | ⟨w, thw, timed, hw, _, heq⟩
+  rcases notifyOne_casesW s ch with ⟨_, heq⟩ | ⟨w, thw, timed, hw, _, heq⟩
   · rw [heq]; exact hD
   · rw [heq]
     exact DInv_setT hD hw s _ rfl rfl (by intro h; cases h)
 
-theorem getT_notifyOne {s : State} {t : Tid} {th : Thread} (hg : getT s t = some th)
+theorem getT_notifyOneW {s : State} {t : Tid} {th : Thread} (hg : getT s t = some th)
     (hnp : isParked th = false) (ch : Nat) : getT (notifyOne s ch) t = some th := by
-  rcases notifyOne_cases s ch with ⟨_, heq⟩ | ⟨w, thw, timed, hw, hwpc, heq⟩
+  rcases notifyOne_casesW s ch with ⟨_, heq⟩ | ⟨w, thw, timed, hw, hwpc, heq⟩
   · rw [heq]; exact hg
   · rw [heq]
     have hwt : t ≠ w := by
@@ -74,7 +74,7 @@ theorem getT_notifyOne {s : State} {t : Tid} {th : Thread} (hg : getT s t = some
     rw [getT_setT_ne _ hwt]; exact hg
 
 theorem notifyOne_nc (s : State) (ch : Nat) : (notifyOne s ch).nc = s.nc := by
-  rcases notifyOne_cases s ch with ⟨_, heq⟩ | ⟨w, thw, timed, _, _, heq⟩ <;> rw [heq] <;> rfl
+  rcases notifyOne_casesW s ch with ⟨_, heq⟩ | ⟨w, thw, timed, _, _, heq⟩ <;> rw [heq] <;> rfl
 
 theorem DInv_step {s s' : State} {t : Tid} {ch : Nat} (hD : DInv s) (h : step s t ch = some s') :
     DInv s' := by
@@ -86,11 +86,11 @@ theorem DInv_step {s s' : State} {t : Tid} {ch : Nat} (hD : DInv s) (h : step s 
     cases hpc : th.pc
     case enqNotify =>
       simp only [step, hg, hpc] at h; cases h
-      have hg' := getT_notifyOne hg (by simp [isParked, hpc]) ch
+      have hg' := getT_notifyOneW hg (by simp [isParked, hpc]) ch
       exact DInv_setT (DInv_notifyOne hD ch) hg' _ _ rfl rfl (by intro h; cases h)
     case dqnNotify =>
       simp only [step, hg, hpc] at h; cases h
-      have hg' := getT_notifyOne hg (by simp [isParked, hpc]) ch
+      have hg' := getT_notifyOneW hg (by simp [isParked, hpc]) ch
       exact DInv_setT (DInv_notifyOne hD ch) hg' _ _ rfl rfl (by intro h; cases h)
     case dqnDec =>
       have h1 := hdec hpc
